@@ -10,6 +10,15 @@ import vlib
 from vlib import Infra, log, sha
 
 
+def _fam_for(ctx, st):
+    """A stage may run its driver in another Go package (keys go_package / drivers / go_tags)."""
+    fam = dict(ctx.fam)
+    for k in ("go_package", "drivers", "go_tags"):
+        if k in st:
+            fam[k] = st[k]
+    return fam
+
+
 def _rm(path):
     if not os.environ.get("VERIF_KEEP"):
         shutil.rmtree(path, ignore_errors=True)
@@ -153,7 +162,7 @@ def stage_gen_replay(ctx, st, only=None):
     with open(infile, "w") as f:
         for i, v in enumerate(items):
             f.write(json.dumps({"b": i, "v": v}, separators=(",", ":")) + "\n")
-    res, outdir = vlib.run_driver(ctx.fam, ctx.scratch.dir, st.get("driver_mode", "replay"),
+    res, outdir = vlib.run_driver(_fam_for(ctx, st), ctx.scratch.dir, st.get("driver_mode", "replay"),
                                   st.get("driver_args"), ctx.seed, ctx.tier, infile=infile,
                                   timeout=st.get("driver_timeout", 420), test=st.get("go_test"))
     n = res.get("replayed", 0)
@@ -271,7 +280,7 @@ def stage_record_validate(ctx, st, only=None):
             for i, v in enumerate(items):
                 f.write(json.dumps({"b": i, "v": v}, separators=(",", ":")) + "\n")
         ctx.add_sample({"stage": "tlc_generated_scenario", "item": items[0]})
-    res, outdir = vlib.run_driver(ctx.fam, ctx.scratch.dir, st.get("driver_mode", "record"), args,
+    res, outdir = vlib.run_driver(_fam_for(ctx, st), ctx.scratch.dir, st.get("driver_mode", "record"), args,
                                   ctx.seed, ctx.tier, infile=infile, timeout=st.get("driver_timeout", 420),
                                   test=st.get("go_test"))
     tf = os.path.join(outdir, "trace.ndjson")
